@@ -2,6 +2,7 @@ package sse
 
 import (
 	"context"
+	"errors"
 	"net/http"
 	"strings"
 )
@@ -30,12 +31,19 @@ type verifClient struct {
 	gate  chan struct{}
 	ctx   verifCtx
 	gone  bool
+	// failAt >= 0: the connection breaks - the failAt-th write and every later one fail
+	failAt int
+	writes int
 }
 
 func (c *verifClient) Header() http.Header { return c.hdr }
 func (c *verifClient) WriteHeader(int)     {}
 func (c *verifClient) Flush()              {}
 func (c *verifClient) Write(p []byte) (int, error) {
+	c.writes++
+	if c.failAt >= 0 && c.writes > c.failAt {
+		return 0, verifErrBroken
+	}
 	if c.stall && len(c.got) >= 1 {
 		<-c.gate
 	}
@@ -43,8 +51,10 @@ func (c *verifClient) Write(p []byte) (int, error) {
 	return len(p), nil
 }
 
+var verifErrBroken = errors.New("write: broken pipe")
+
 func verifNewClient(stall bool) *verifClient {
-	return &verifClient{hdr: http.Header{}, stall: stall, gate: make(chan struct{}), ctx: verifCtx{context.Background(), make(chan struct{})}}
+	return &verifClient{failAt: -1, hdr: http.Header{}, stall: stall, gate: make(chan struct{}), ctx: verifCtx{context.Background(), make(chan struct{})}}
 }
 
 func (c *verifClient) serve(h *Handler) {
@@ -76,6 +86,7 @@ func VerifC19Churn() {
 	clients := make([]*verifClient, n)
 	for i := range clients {
 		clients[i] = verifNewClient(symBool("stall" + string(rune('0'+i))))
+		clients[i].failAt = symChoose(3) - 1 // the connection never breaks / breaks at the first / at the second write
 		clients[i].serve(h)
 	}
 	for s := 0; s < symParam("STEPS"); s++ {
@@ -96,6 +107,10 @@ func VerifC19Churn() {
 	}
 	blocked := symQuiesce()
 	symAssert(blocked == 0, "after all clients are gone no goroutine is left blocked forever")
+	h.m.Lock()
+	left := len(h.requests)
+	h.m.Unlock()
+	symAssert(left == 0, "after all clients are gone the registry is empty")
 }
 
 // VerifC19Delivery: a client connected for the whole broadcast receives it, also when another
